@@ -1434,8 +1434,14 @@ class Interp:
             if a == 'at': return AtProxy(v)
             if a == 'dtype': return ('dtype', self.dtypes.get(id(v), ('float', None))[0])
             if a == 'size': return v.size
-            if a in ('reshape', 'take', 'sum', 'any', 'all', 'dot', 'astype', 'copy', 'transpose', 'squeeze', 'flatten'):
+            if a in ('reshape', 'take', 'sum', 'any', 'all', 'dot', 'astype', 'copy', 'transpose', 'squeeze', 'flatten', 'ravel',
+                     'swapaxes', 'repeat', 'cumsum', 'prod', 'tolist', 'item'):
                 return ('bound', 'nd_' + a, v)
+            if a in ('max', 'min', 'mean', 'clip', 'argmax', 'argmin', 'round', 'std', 'var'):
+                f_ = {'mean': lambda x, axis=None, **k: asarr(x).sum(axis=axis) / (asarr(x).size if axis is None else asarr(x).shape[axis])}.get(a) or JNP.get(a)
+                if f_ is None:
+                    raise OutOfFragment('unmodelled array method .%s' % a)
+                return ('prim', 'nd_' + a, lambda *args, _f=f_, _v=v, **kw: _f(_v, *args, **kw))
         if isinstance(v, Rat):
             if a == 'shape': return ()
             if a == 'ndim': return 0
@@ -2199,3 +2205,129 @@ def free_symbols(v, opaque_kinds=()):
     for x in asarr(v).ravel():
         rat(x)
     return out
+
+
+# ---------------------------------------------------------------------------------------------
+# Additional jax.numpy primitives on object arrays (idioms a refactoring may switch to).
+def _einsum(subs, *ops):
+    import itertools as _it
+    subs = subs.replace(' ', '')
+    if '...' in subs:
+        raise OutOfFragment('einsum with ellipsis')
+    lhs, _, rhs = subs.partition('->')
+    ins = lhs.split(',')
+    ops = [asarr(o) for o in ops]
+    if len(ins) != len(ops):
+        raise OutOfFragment('einsum operand count')
+    dims = {}
+    for s_, o in zip(ins, ops):
+        if len(s_) != o.ndim:
+            raise OutOfFragment('einsum rank')
+        for c, n in zip(s_, o.shape):
+            if dims.setdefault(c, n) != n:
+                raise OutOfFragment('einsum dimension mismatch')
+    if not _:
+        rhs = ''.join(sorted(c for c in dims if lhs.count(c) == 1))
+    summed = [c for c in dims if c not in rhs]
+    out = np.empty(tuple(dims[c] for c in rhs), dtype=object)
+    for oidx in np.ndindex(*out.shape):
+        env = dict(zip(rhs, oidx))
+        tot = Rat.lift(0)
+        for sidx in _it.product(*[range(dims[c]) for c in summed]):
+            env.update(zip(summed, sidx))
+            term = Rat.lift(1)
+            for s_, o in zip(ins, ops):
+                term = term * Rat.lift(o[tuple(env[c] for c in s_)])
+            tot = tot + term
+        out[oidx] = tot
+    return out if out.shape else out[()]
+
+
+def _cmp_prim(op):
+    return lambda a, b: elemwise(lambda x, y: Rat.lift(x)._cmp(op, y), a, b)
+
+
+def _reduce_minmax(kind):
+    def red(x, axis=None, **kw):
+        x = asarr(x)
+        if axis is None:
+            vals = list(x.ravel())
+            r = vals[0]
+            for v in vals[1:]:
+                r = _minmax(kind, r, v)
+            return r
+        moved = np.moveaxis(x, axis, -1)
+        out = np.empty(moved.shape[:-1], dtype=object)
+        for idx in np.ndindex(*moved.shape[:-1]):
+            out[idx] = red(moved[idx])
+        return out
+    return red
+
+
+def _arg_extreme(kind):
+    def f(x, axis=None, **kw):
+        x = asarr(x)
+        if not all(Rat.lift(v).is_const() for v in x.ravel()):
+            raise OutOfFragment('arg%s of abstract values' % kind)
+        c = np.array([float(Rat.lift(v).constval()) for v in x.ravel()]).reshape(x.shape)
+        return (np.argmax if kind == 'max' else np.argmin)(c, axis=axis)
+    return f
+
+
+def _select(condlist, choicelist, default=0):
+    out = asarr(default)
+    for c, v in reversed(list(zip(condlist, choicelist))):
+        out = P_where(c, v, out)
+    return out
+
+
+JNP.update({
+    'einsum': _einsum,
+    'tensordot': lambda a, b, axes=2: np.tensordot(asarr(a), asarr(b), axes=axes),
+    'matmul': lambda a, b: np.matmul(asarr(a), asarr(b)),
+    'inner': lambda a, b: np.inner(asarr(a), asarr(b)),
+    'vdot': lambda a, b: (asarr(a).ravel() * asarr(b).ravel()).sum(),
+    'true_divide': lambda a, b: asarr(a) / asarr(b),
+    'hstack': lambda xs: np.hstack([asarr(x) for x in xs]),
+    'full_like': lambda x, v, **k: _full(asarr(x).shape, v),
+    'moveaxis': lambda a, s_, d: np.moveaxis(asarr(a), s_, d),
+    'ravel': lambda a: asarr(a).ravel(),
+    'select': _select,
+    'power': lambda a, b: elemwise(lambda x, y: Rat.lift(x) ** (y.constval() if isinstance(y, Rat) and y.is_const() else y), a, b),
+    'float_power': lambda a, b: elemwise(lambda x, y: Rat.lift(x) ** (y.constval() if isinstance(y, Rat) and y.is_const() else y), a, b),
+    'reciprocal': lambda a: 1 / asarr(a),
+    'kron': lambda a, b: np.kron(asarr(a), asarr(b)),
+    'take_along_axis': lambda a, i, axis: np.take_along_axis(asarr(a), toint(i), axis=axis),
+    'flip': lambda a, axis=None: np.flip(asarr(a), axis=axis),
+    'cumsum': lambda a, axis=None, **k: np.cumsum(asarr(a), axis=axis),
+    'cumprod': lambda a, axis=None, **k: np.cumprod(asarr(a), axis=axis),
+    'max': _reduce_minmax('max'), 'amax': _reduce_minmax('max'), 'min': _reduce_minmax('min'), 'amin': _reduce_minmax('min'),
+    'argmax': _arg_extreme('max'), 'argmin': _arg_extreme('min'),
+    'nan_to_num': lambda x, **k: elemwise(lambda v: P_where(JNP['isnan'](v), 0, v), x),
+    'allclose': lambda a, b, **k: uf('allclose', asarr(a) - asarr(b)),
+    'isclose': lambda a, b, **k: elemwise(lambda x, y: uf('allclose', Rat.lift(x) - Rat.lift(y)), a, b),
+    'atleast_1d': lambda a: np.atleast_1d(asarr(a)), 'atleast_2d': lambda a: np.atleast_2d(asarr(a)),
+    'broadcast_to': lambda a, shape: np.broadcast_to(asarr(a), shape).copy(),
+    'array_split': lambda a, n, axis=0: list(np.array_split(asarr(a), n, axis=axis)),
+    'insert': lambda a, i, v, axis=None: np.insert(asarr(a), toint(i), asarr(v), axis=axis),
+    'delete': lambda a, i, axis=None: np.delete(asarr(a), toint(i), axis=axis),
+    'logical_xor': lambda a, b: asarr(a) + asarr(b) - 2 * asarr(a) * asarr(b),
+    'equal': _cmp_prim('=='), 'not_equal': _cmp_prim('!='), 'less': _cmp_prim('<'), 'greater': _cmp_prim('>'),
+    'less_equal': _cmp_prim('<='), 'greater_equal': _cmp_prim('>='),
+    'ceil': unary('ceil'), 'round': unary('round'),
+    'identity': lambda n, **k: P_eye(n),
+    'newaxis': None, 'nan': float('nan'), 'bool_': lambda x: x,
+    'linspace': lambda a, b, n=50, **k: np.array([Rat.lift(exact(float(v))) for v in np.linspace(float(Rat.lift(a).constval()), float(Rat.lift(b).constval()), int(n))], dtype=object),
+})
+JNP['linalg']['det'] = lambda a: _det(asarr(a))
+
+
+def _det(a):
+    n = a.shape[0]
+    if n == 1:
+        return a[0, 0]
+    tot = Rat.lift(0)
+    for j in range(n):
+        minor = np.delete(np.delete(a, 0, axis=0), j, axis=1)
+        tot = tot + (-1) ** j * Rat.lift(a[0, j]) * _det(minor)
+    return tot
